@@ -55,7 +55,8 @@ def cases(tier, seed):
         length = rng.randint(2, 12) if k % 10 else rng.randint(30, 80)
         yield {'kind': 'history', 'start': {'shape': list(start), 'numtype': nt, 'bo': bo,
                                            'chunklen': rng.choice([1, 2, 3, 100])},
-               'ops': [rng.choice(allops) for _ in range(length)], 'vseed': f'{seed}:{k}'}
+               'ops': [rng.choice(allops) for _ in range(length)], 'vseed': f'{seed}:{k}',
+               'observe': ['every', 'sparse', 'end'][k % 3]}
 
 
 def run_table(case, env, res):
